@@ -196,6 +196,22 @@ class BinaryFileReader:
         tp = self.read_byte()
         return LANG_TYPES_REVERSE[tp]
 
+    def read_block_type(self):
+        """Read block type: empty, a value type or a type index"""
+        tp = self.read_byte()
+        if tp & 0xC0 == 0x40:
+            # Single byte negative number: empty block or value type
+            return LANG_TYPES_REVERSE[tp]
+        else:
+            # A type index, stored as a signed 33 bit integer.
+            value = tp & 0x7F
+            shift = 7
+            while tp & 0x80:
+                tp = self.read_byte()
+                value |= (tp & 0x7F) << shift
+                shift += 7
+            return Ref("type", index=value)
+
     def read_limits(self):
         """Read min and max limits"""
         mx_present = self.read_byte()
@@ -435,7 +451,7 @@ class BinaryFileReader:
 
 # This is a list of functions to read specific argument types:
 rfm = {
-    ArgType.TYPE: lambda reader: reader.read_type(),
+    ArgType.TYPE: lambda reader: reader.read_block_type(),
     ArgType.U8: lambda reader: reader.read_byte(),
     ArgType.U32: lambda reader: reader.read_uint(),
     ArgType.LABELIDX: lambda reader: reader.read_space_ref("label"),
